@@ -380,6 +380,10 @@ def run(rep: Report, tier: str) -> None:
                        "errors are OutOfRangeException, error() is InvalidInputException, failed casts ConversionException)")
     from sa.checks.c32 import execute_sites_wrapped as _wrapped
     _wrapped(P, rep, "R01.10")
+    # ---- R01.11: the operand values the operators work on are the values that were given (shared with C18 R18.6) ----
+    rep.rule("R01.11", "an Integer operand handed over in an exact integer column is loaded without passing through a binary float (64-bit integers beyond 2**53 keep their value)")
+    from sa.checks.c18 import integer_carrier_exact as _ice
+    _ice(P, rep, "R01.11")
     rep.assumptions = ["DuckDB scalar functions and arithmetic/comparison operators return NULL on a NULL argument; COALESCE/IS NULL/AND/OR/CASE "
                        "follow SQL semantics; error() never returns", "VTL semantics encoded in the checker: null propagation for the listed "
                        "operator classes, Kleene tables for and/or, null-strict xor/not"]
